@@ -71,7 +71,9 @@ ExpectDump(dump) == [i \in 1..Len(dump) |-> ExpectG(dump, i)]
 (*   nfr[i] frames of operation i, ids[i] its goroutine id (ids may        *)
 (*   repeat), kinds[i] in {"r","w"}; secs = the operations (by index) that *)
 (*   get a "Goroutine N (running|finished) created at:" section, in        *)
-(*   printed order; cfr[j] frames and cst[j] state of section j.           *)
+(*   printed order; cfr[j] frames and cst[j] state of section j.  A section *)
+(*   entry 0 stands for a FOREIGN section: it names goroutine ForeignId,    *)
+(*   which took part in no operation.                                       *)
 S2 == <<"s","s">>
 S6 == <<"s","s","s","s","s","s">>
 
@@ -82,8 +84,10 @@ ROpLine(rep, i) ==
   Lin(IF i = 1 THEN "rop" ELSE "rprev", <<>>, [id |-> rep.ids[i], state |-> "", tok |-> rep.kinds[i]])
 ROps(rep) == FlattenSeq([i \in 1..rep.nops |->
                <<ROpLine(rep, i)>> \o RFrames("O", i, rep.nfr[i]) \o <<Lin("blank", <<>>, Tk(""))>>])
+ForeignId == 99
+SecId(rep, j) == IF rep.secs[j] = 0 THEN ForeignId ELSE rep.ids[rep.secs[j]]
 RSecs(rep) == FlattenSeq([j \in 1..Len(rep.secs) |->
-               <<Lin("rgo", <<>>, [id |-> rep.ids[rep.secs[j]], state |-> rep.cst[j], tok |-> ""])>>
+               <<Lin("rgo", <<>>, [id |-> SecId(rep, j), state |-> rep.cst[j], tok |-> ""])>>
                \o RFrames("K", j, rep.cfr[j])
                \o (IF j < Len(rep.secs) THEN <<Lin("blank", <<>>, Tk(""))>> ELSE <<>>)])
 PrintReport(rep) ==
@@ -93,7 +97,7 @@ PrintReport(rep) ==
    is the id of the FIRST operation with that id, and only for that first
    operation (attribution is by goroutine id)                               *)
 FirstOpWithId(rep, id) == CHOOSE i \in 1..rep.nops : rep.ids[i] = id /\ \A k \in 1..(i-1) : rep.ids[k] # id
-SecsFor(rep, i) == {j \in 1..Len(rep.secs) : FirstOpWithId(rep, rep.ids[rep.secs[j]]) = i}
+SecsFor(rep, i) == {j \in 1..Len(rep.secs) : rep.secs[j] # 0 /\ FirstOpWithId(rep, rep.ids[rep.secs[j]]) = i}
 RToks(tag, i, nf) == [j \in 1..nf |-> [fn |-> tag \o N2S(i) \o "_" \o N2S(j), lead |-> <<>>,
                                         file |-> tag \o "P" \o N2S(i) \o "_" \o N2S(j), flead |-> <<>>]]
 RECURSIVE SecFrames(_, _, _)
@@ -107,4 +111,9 @@ ExpectOp(rep, i) ==
    calls |-> RToks("O", i, rep.nfr[i]),
    created |-> SecFrames(rep, js, 1)]
 ExpectReport(rep) == [i \in 1..rep.nops |-> ExpectOp(rep, i)]
+(* a foreign section is an error, never a misattribution: the report parses up to it *)
+HasForeign(rep) == \E j \in 1..Len(rep.secs) : rep.secs[j] = 0
+ForeignAt(rep) == CHOOSE j \in 1..Len(rep.secs) : rep.secs[j] = 0
+UpToForeign(rep) == LET f == ForeignAt(rep) IN
+  [rep EXCEPT !.secs = SubSeq(@, 1, f - 1), !.cfr = SubSeq(@, 1, f - 1), !.cst = SubSeq(@, 1, f - 1)]
 =============================================================================
